@@ -193,11 +193,13 @@ func main() {
 
 
 def reader_case(rng, n):
-    """(source bytes, ops) - a call sequence within the reader's contract: NUL-free source; a Retract gives back bytes of the
-    pending lexeme and leaves at most one half outstanding. Lexemes may be much longer than the buffer."""
+    """(source bytes, ops) - a call sequence within the reader's contract: any bytes, zero bytes included (the end of the
+    input is told apart by its index); a Retract gives back bytes of the pending lexeme and leaves at most one half
+    outstanding. Lexemes may be much longer than the buffer."""
     ln = rng.choice([0, 1, n - 1, n, n + 1, 2 * n - 1, 2 * n, 2 * n + 1, 3 * n, 4 * n + 1, rng.randrange(0, 6 * n + 2)])
     ln = max(0, ln)
-    data = bytes((rng.choice([10, 32, 97, 98, 255, 128]) if rng.random() < 0.5 else rng.randrange(1, 256)) for _ in range(ln))
+    zeros = rng.choice([0.0, 0.0, 0.02, 0.3, 1.0])        # none, a few, many, only zero bytes
+    data = bytes((0 if rng.random() < zeros else rng.choice([10, 32, 97, 98, 255, 128]) if rng.random() < 0.5 else rng.randrange(0, 256)) for _ in range(ln))
     k = p = kb = 0
     ops = []
     steps = rng.choice([ln + 3, 2 * ln + 5, 3 * ln + 8])
@@ -227,7 +229,7 @@ def rune_case(rng, n):
     read since the last Lexeme/Skip, and the bytes given back and not yet read again fit into one half (4 bytes per rune
     at most: at most n // 4 runes outstanding)."""
     k = rng.choice([0, 1, 2, n, 2 * n, 3 * n + 1, rng.randrange(0, 5 * n + 3)])
-    runes = [rng.choice(BOUNDARY_RUNES) if rng.random() < 0.45 else rng.choice([97, 98, 10, 32, rng.randrange(1, 128)]) for _ in range(k)]
+    runes = [rng.choice(BOUNDARY_RUNES) if rng.random() < 0.45 else rng.choice([97, 98, 10, 32, 0, rng.randrange(0, 128)]) for _ in range(k)]
     ops, exp = [], []
     cur, begin, back, outst = 0, 0, 0, 0
     for _ in range(rng.choice([k + 2, 2 * k + 4, 3 * k + 6])):
@@ -398,9 +400,9 @@ def gen_text(rng, dfa, maxtok, short):
             lx = random_lexeme(rng, dfa, maxtok)
             if lx and len(lx) >= 2:
                 i = rng.randrange(1, len(lx))
-                parts.append(lx[:i] + rng.choice(["é", "€", "世", "\u0080", "\U00010000", "\ufffd", "\u00a0", "\u2028"]) + lx[i:])
+                parts.append(lx[:i] + rng.choice(["é", "€", "世", "\u0080", "\U00010000", "\ufffd", "\u00a0", "\u2028", "\x00"]) + lx[i:])
         elif k < 0.86:
-            parts.append(rng.choice(["?", "@", "é", "€", "x9", "=", "a", "ab", "abab", "~",
+            parts.append(rng.choice(["?", "@", "é", "€", "x9", "=", "a", "ab", "abab", "~", "\x00", "\x00", "a\x00b",
                                      # the first and last code point of every UTF-8 length, the neighbours of the surrogates, U+FFFD (what
                                      # decoders return for garbage - here a character like any other)
                                      # characters Unicode calls white space that the documentation does not list as discarded
@@ -533,7 +535,7 @@ def run(ctx):
     finally:
         shutil.rmtree(root, ignore_errors=True)
     cov = {"evaluations": stats["texts"], "distinct_nontrivial": len(distinct), "programs": stats["packages_compiled"], "disagreements_checked": stats["texts"],
-           "rule": "seeded random specifications (identifier/number/keyword/operator/string/comment patterns incl. non-ASCII ranges and automata that re-enter their start state, skipped terminals WS/EOL/COMMENT, literals); each emitted package is compiled twice - as emitted (buffer 4096) and with the reader's buffer constant set to 8 - with a small driver that prints terminal, lexeme, offset, line, column per token and the final error; texts: random walks through the automaton joined by blanks/newlines/nothing, near-misses and stray characters, multi-byte characters, with and without final newline, plus paddings placing tokens and the end of input on and around both 4096-byte buffer boundaries; expected output = maximal munch over Spec.DFA()'s automaton (Emerge.Emitted.scan); reader: random call sequences within the contract (next / Retract of 1..n bytes / Lexeme / Skip) on NUL-free sources of lengths around every multiple of the half size, source delivered in chunks of 1..n+1 bytes, compared with Emerge.Reader.cRun and with the plain stream aRun; non-trivial = distinct (package, text)",
+           "rule": "seeded random specifications (identifier/number/keyword/operator/string/comment patterns incl. non-ASCII ranges and automata that re-enter their start state, skipped terminals WS/EOL/COMMENT, literals); each emitted package is compiled twice - as emitted (buffer 4096) and with the reader's buffer constant set to 8 - with a small driver that prints terminal, lexeme, offset, line, column per token and the final error; texts: random walks through the automaton joined by blanks/newlines/nothing, near-misses and stray characters, multi-byte characters, with and without final newline, plus paddings placing tokens and the end of input on and around both 4096-byte buffer boundaries; expected output = maximal munch over Spec.DFA()'s automaton (Emerge.Emitted.scan); reader: random call sequences within the contract (next / Retract of 1..n bytes / Lexeme / Skip) on arbitrary byte sources (zero bytes included) of lengths around every multiple of the half size, source delivered in chunks of 1..n+1 bytes, compared with Emerge.Reader.cRun and with the plain stream aRun; non-trivial = distinct (package, text)",
            "samples": samples or ["-"], "outcomes": stats,
            "explanation": "proof: for every automaton the model of the emitted NextToken is maximal munch with exact partition and positions (Emerge/Props/C19.lean); translation validation: the compiled artefact is run against that model per text; the reader (input.go.tmpl) is proved to be the plain byte stream for every half size, length and alignment (C19_reader, model Emerge.Reader) and that model is driven call by call against the emitted input.go (half sizes 1..16 and 4096, chunked sources); the UTF-8 assembly of Next from next is exercised, not proved",
            "trusted_base": TRUSTED_BASE + ["Go compiler/runtime for the emitted package", "hand model of the reader (Emerge.Reader) validated against the emitted input.go by the call-by-call correspondence"]}
